@@ -17,7 +17,8 @@ from vlib import common as C, e2e, sysrun as S
 PROP = "C02"
 THEOREMS = ["GitAi.Sys.blame_matches_ghost", "GitAi.Sys.rewrite_preserves_attribution", "GitAi.Sys.replay_credit_from_source",
             "GitAi.Sys.aborted_is_identity", "GitAi.Sys.stash_roundtrip_partial", "GitAi.Sys.regression_stash_upstream_above",
-            "GitAi.Sys.rspecRun_st"]
+            "GitAi.Sys.rspecRun_st", "GitAi.RJ.fresh_operation_uses_its_own_head", "GitAi.RJ.continuation_keeps_the_open_start",
+            "GitAi.RJ.hasActiveStart_iff", "GitAi.RJ.extracted_decisions_sound"]
 
 
 def norm(t):
@@ -749,13 +750,24 @@ def run(tier, seed):
                 "upstream change positions (other file, above, below, both); non-trivial = more than 4 executed steps")
     res.rule += ("; correspondence: for every template the model has (all but conflict resolution inside a stopped rebase and cherry-pick -n) the Lean model Model/Rewrite.lean is fed the runner's steps and the file contents "
                  "git produced for rewritten commits, and its predicted blame is compared with the binary's at every observation point")
-    res.trusted = ["Lean 4.33 kernel", "vlib/props/c02.py text-identity ghost tracking and model-script recording", "real git 2.39 (its rebase / "
+    res.trusted = ["Lean 4.33 kernel", "extract/rewrite_hooks.py (textual extraction of the start/continue decision)",
+                   "vlib/props/c02.py text-identity ghost tracking and model-script recording", "real git 2.39 (its rebase / "
                    "cherry-pick / merge / stash results are inputs of the model)"]
     ok, out = C.build_git_ai()
     if not ok:
         res.obligation("build binary from /repo working tree", False, "build")
         res.broken_tie("build", out[-3000:])
         return res.finish()
+    # start / continue decisions of the rebase and cherry-pick hooks, re-read from the current source
+    try:
+        import importlib.util
+        spec = importlib.util.spec_from_file_location("extract_rewrite_hooks", os.path.join(C.VERIF, "extract", "rewrite_hooks.py"))
+        X = importlib.util.module_from_spec(spec); spec.loader.exec_module(X)
+        res.extra["extraction"] = X.main()
+        res.obligation("extract start/continue decisions of rebase_hooks.rs and cherry_pick_hooks.rs", True, "extraction")
+    except Exception as ex:
+        res.obligation("extract start/continue decisions of rebase_hooks.rs and cherry_pick_hooks.rs", False, "extraction")
+        res.broken_tie("extract:rewrite_hooks", repr(ex))
     if os.path.exists(os.path.join(C.LEAN, "GitAiModel", "Props", "C02.lean")):
         C.phase_proofs(res, PROP, THEOREMS)
     n = 75 if tier == "quick" else 1500
